@@ -950,6 +950,9 @@ func (w *World) failOnlyGatePolicy(n *Node) func(kind string, h uint64) GateVerd
 		}
 		if pm > 0 && w.ch.Chance("spi-fail:"+kind, pm) {
 			w.stats.Fault("spi-error-" + kind)
+			if kind == "commit" {
+				w.commitFailedN = n
+			}
 			return GateFail
 		}
 		return GatePass
